@@ -495,3 +495,97 @@ def build7(m):
                        'is_none(next_line) == (lines._index + 1 >= len(lines.lines))',
                        'implies(not is_none(next_line), some(next_line) == lines.lines[lines._index + 1])'])},
                    prop=['C04'], options={'tier': 'thorough'}))
+
+
+def build8(m):
+    """parse_marker verified against a regex *capture* contract (A5) instead of being trusted as a
+    whole; constructor shape obligations of List/Table (C01, C12)."""
+    def method(cls, name, c, static=False, classmethod_=False):
+        m.methods[(cls, name)] = c.key
+        c.is_static = static
+        c.is_classmethod = classmethod_
+        m.add(c)
+        return c
+    MARKER = TTuple([INT, INT, STR, STR])
+    ML = TRef('MatchLI')
+    m.classes['MatchLI'] = {}
+    m.ufunc('li_group', [ML, INT], STR)
+    m.class_attrs[('ListItem', 'pattern')] = ('const', mk_obj('pattern', 'ListItem.pattern'))
+    # capture contract of ListItem.pattern = ( {0,3})(marker)($|\\s+): the three groups concatenate to
+    # group 0, which is a prefix of the line; group 1 is 0-3 spaces; the marker is not empty
+    m.add(Contract('re:ListItem.pattern.match', [('s', STR)], returns=TOpt(ML), trusted=True, pure=True,
+                   ensures=['is_none(result) == (not is_marker(s))',
+                            'implies(not is_none(result), li_group(some(result), 0) == li_group(some(result), 1) + '
+                            'li_group(some(result), 2) + li_group(some(result), 3))',
+                            'implies(not is_none(result), s.startswith(li_group(some(result), 0)))',
+                            'implies(not is_none(result), len(li_group(some(result), 1)) <= 3 and len(li_group(some(result), 2)) >= 1)'],
+                   note='A5 capture contract (group structure of ListItem.pattern; the group languages are those of the '
+                        'sub-patterns, checked by the language lemmas; leftmost/greedy choice assumed)'))
+    m.methods[('MatchLI', 'group')] = 're:MatchLI.group'
+    m.add(Contract('re:MatchLI.group', [('self', ML), ('n', INT)], returns=STR, trusted=True, pure=True,
+                   ensures=['result == li_group(self, n)']))
+    m.methods[('MatchLI', 'end')] = 're:MatchLI.end'
+    m.add(Contract('re:MatchLI.end', [('self', ML), ('n', INT)], returns=INT, trusted=True, pure=True,
+                   ensures=['result == (len(li_group(self, 0)) if n == 0 else '
+                            '(len(li_group(self, 1)) if n == 1 else len(li_group(self, 1)) + len(li_group(self, 2))))'],
+                   note='end(k) for the consecutive groups 1,2 of a match that starts at position 0'))
+    # the call-site contract of parse_marker is no longer trusted: its body is verified against
+    # the capture contract above
+    c = m.contracts[MOD + ':ListItem.parse_marker']
+    c.trusted = False
+    c.pure = True
+    c.ensures = ['is_none(result) == (not is_marker(line))',
+                 'implies(not is_none(result), 0 <= some(result)[0] and some(result)[0] <= 3 and len(some(result)[2]) >= 1)',
+                 # C12 / C09 / C10: the content offset lies behind indentation + leader
+                 'implies(not is_none(result), some(result)[1] >= some(result)[0] + len(some(result)[2]))']
+    c.prop = ['C01', 'C12', 'C09', 'C10', 'C13']
+    c.note = 'verified against the capture contract re:ListItem.pattern.match'
+
+
+def build9(m):
+    """CodeFence.start and Heading.start verified against capture contracts (C11 typestate source,
+    C12 level range)."""
+    def method(cls, name, c, static=False, classmethod_=False):
+        m.methods[(cls, name)] = c.key
+        c.is_static = static
+        c.is_classmethod = classmethod_
+        m.add(c)
+        return c
+    MCF = TRef('MatchCF')
+    m.classes['MatchCF'] = {}
+    m.ufunc('codefence_matches', [STR], BOOL)
+    m.ufunc('cf_groups', [MCF], TTuple([STR, STR, STR, STR]))
+    m.class_attrs[('CodeFence', 'pattern')] = ('const', mk_obj('pattern', 'CodeFence.pattern'))
+    m.add(Contract('re:CodeFence.pattern.match', [('s', STR)], returns=TOpt(MCF), trusted=True, pure=True,
+                   ensures=['is_none(result) == (not codefence_matches(s))',
+                            'implies(not is_none(result), len(cf_groups(some(result))[0]) <= 3 and '
+                            'len(cf_groups(some(result))[1]) >= 3)'],
+                   note='A5 capture contract of CodeFence.pattern: ( {0,3})(`{3,}|~{3,})(info): indentation at most 3, fence at least 3'))
+    m.methods[('MatchCF', 'groups')] = 're:MatchCF.groups'
+    m.add(Contract('re:MatchCF.groups', [('self', MCF)], returns=TTuple([STR, STR, STR, STR]), trusted=True, pure=True,
+                   ensures=['result == cf_groups(self)']))
+    c = m.contracts[MOD + ':CodeFence.start']
+    c.trusted = False
+    c.note = 'verified against the capture contract re:CodeFence.pattern.match'
+    c.prop = ['C01', 'C11', 'C05']
+    # Heading
+    MH = TRef('MatchH')
+    m.classes['MatchH'] = {}
+    m.ufunc('heading_matches', [STR], BOOL)
+    m.ufunc('h_group', [MH, INT], TOpt(STR))
+    m.class_attrs[('Heading', 'pattern')] = ('const', mk_obj('pattern', 'Heading.pattern'))
+    m.add(Contract('re:Heading.pattern.match', [('s', STR)], returns=TOpt(MH), trusted=True, pure=True,
+                   ensures=['is_none(result) == (not heading_matches(s))',
+                            'implies(not is_none(result), not is_none(h_group(some(result), 1)) and '
+                            '1 <= len(some(h_group(some(result), 1))) and len(some(h_group(some(result), 1))) <= 6)'],
+                   note='A5 capture contract of Heading.pattern; the width of group 1 (#{1,6}) is the lemma width:Heading.pattern.g1'))
+    m.methods[('MatchH', 'group')] = 're:MatchH.group'
+    m.add(Contract('re:MatchH.group', [('self', MH), ('n', INT)], returns=TOpt(STR), trusted=True, pure=True,
+                   ensures=['result == h_group(self, n)']))
+    method('Heading', 'start', Contract(
+        MOD + ':Heading.start', [('cls', cls_t('Heading')), ('line', STR)], returns=BOOL,
+        ensures=['result == heading_matches(line)',
+                 # C12 / C08: a started heading has a level between 1 and 6
+                 ('implies(result, 1 <= Heading.level and Heading.level <= 6)', ['C12', 'C08'])],
+        modifies=['G:Heading.level', 'G:Heading.content', 'G:Heading.closing_sequence'],
+        prop=['C01', 'C12', 'C11']), classmethod_=True)
